@@ -227,6 +227,27 @@ def cfgOf : Decision → Option Cfg
 /-- `CPWSGIServer.__init__`: `self.max_request_body_size = adapter.max_request_body_size or 0` -/
 def serverLimit (adapter : Option Nat) : Nat := adapter.getD 0
 
+/-- One HTTP server among several: `_cpserver.Server` adapters (the global `cherrypy.server`, those made by
+    `server.<name>.<key>` config entries, those constructed by hand) each hand THEIR OWN limits to the
+    `CPWSGIServer` built by `httpserver_from_self()`; an attribute the adapter never got is the class
+    default (`Gen.C05.serverMaxRequestBodySize` / `serverMaxRequestHeaderSize`).  `none` in `own` = not
+    configured; `some none` / `some (some 0)` = configured `None` / 0 = no limit. -/
+structure Adapter where
+  body : Option (Option Nat)
+  header : Option (Option Nat)
+  deriving Repr, DecidableEq, Inhabited
+
+def adapterBody (a : Adapter) : Option Nat := a.body.getD Gen.C05.serverMaxRequestBodySize
+def adapterHeader (a : Adapter) : Option Nat := a.header.getD Gen.C05.serverMaxRequestHeaderSize
+
+/-- (max_request_body_size, max_request_header_size) of the wsgi server of the `i`-th adapter; the global
+    server is just one of the adapters -/
+def wsgiLimits (adapters : List Adapter) (i : Nat) : Option (Nat × Nat) :=
+  adapters[i]?.map fun a => (serverLimit (adapterBody a), serverLimit (adapterHeader a))
+
+/-- is a body of `n` bytes refused by the server that received it? (0 = no limit) -/
+def serverRefuses (limit n : Nat) : Bool := limit != 0 && decide (n > limit)
+
 /-! ### `SizedReader.finish`: the trailer -/
 
 /-- `bytes.title()`: ASCII letters only are cased -/
